@@ -100,7 +100,11 @@ def check_bracket(body, idx, var, tree):
     if len(t.body) != 1 or not isinstance(t.body[0], (ast.For, ast.AsyncFor)):
         return "try-body-not-a-single-loop"
     loop = t.body[0]
-    if not (isinstance(loop.iter, ast.Name) and loop.iter.id == var):
+    it = loop.iter
+    if isinstance(it, ast.Call) and emit.call_name(it) in ("AsyncLoopContext", "LoopContext") and it.args:
+        # the loop context wrapper iterates its first argument and holds no generator frame of its own
+        it = it.args[0]
+    if not (isinstance(it, ast.Name) and it.id == var):
         return "loop-not-over-the-generator"
     if loop.orelse:
         return "loop-with-else"
